@@ -11,3 +11,23 @@
   The solver side (Interrupt ⇒ UserInterrupt, no further call) is C19.
 -/
 import IvpModel.Proofs.SolOutPhases
+import IvpModel.Props.C05
+
+/-! non-vacuity of `processEvs_stops_at_first`, on a concrete handler state over ℚ with two event functions: event 0 is terminal
+    with count 2 (or 1), event 1 is not terminal; the step contains an occurrence of event 0 at 1/4 and one of event 1 at 1/2 -/
+open SolOutM in
+def c10State (count : Nat) : St ℚ :=
+  { tEval := none, tol := 0, tEvents := #[#[], #[]], yEvents := #[#[], #[]], collectDense := false,
+    cfg := #[⟨.all, some count⟩, ⟨.all, none⟩], prevEvent := #[0, 0], eventHits := #[0, 0], firstStep := none, x0 := 0 }
+
+open SolOutM in
+/-- count 2: the first occurrence does not stop the run and hides nothing — both events are recorded, no interrupt -/
+example : (processEvs true 0 1 none (c10State 2) [(1/4, 0, #[]), (1/2, 1, #[])]).2 = false
+    ∧ (processEvs true 0 1 none (c10State 2) [(1/4, 0, #[]), (1/2, 1, #[])]).1.tEvents = #[#[1/4], #[1/2]] := by
+  simp [processEvs, fires, recordEv, c10State]
+
+open SolOutM in
+/-- count 1: the run stops at 1/4 and the later event is not recorded -/
+example : (processEvs true 0 1 none (c10State 1) [(1/4, 0, #[]), (1/2, 1, #[])]).2 = true
+    ∧ (processEvs true 0 1 none (c10State 1) [(1/4, 0, #[]), (1/2, 1, #[])]).1.tEvents = #[#[1/4], #[]] := by
+  simp [processEvs, fires, recordEv, c10State, pushTerminal, terminalSamples, pushSample]
